@@ -70,11 +70,9 @@ struct Run {
 		{ P p; p = (signed char)W;        std::printf("posit %u %u fromi i8 %llx => %llx\n", nbits, es, W, (unsigned long long)enc(p)); }
 		{ P p; p = (short)W;              std::printf("posit %u %u fromi i16 %llx => %llx\n", nbits, es, W, (unsigned long long)enc(p)); }
 		{ P p; p = (int)W;                std::printf("posit %u %u fromi i32 %llx => %llx\n", nbits, es, W, (unsigned long long)enc(p)); }
-		if (W != 0x8000000000000000ull) {  // -LLONG_MIN is undefined behaviour inside value::operator=(long long): see C20
 		{ P p; p = (long)W;               std::printf("posit %u %u fromi l64 %llx => %llx\n", nbits, es, W, (unsigned long long)enc(p)); }
 		{ P p; p = (long long)W;          std::printf("posit %u %u fromi i64 %llx => %llx\n", nbits, es, W, (unsigned long long)enc(p)); }
 		{ P p; p = (unsigned long)W;      std::printf("posit %u %u fromi ul64 %llx => %llx\n", nbits, es, W, (unsigned long long)enc(p)); }
-		}
 		{ P p; p = (unsigned short)W;     std::printf("posit %u %u fromi u16 %llx => %llx\n", nbits, es, W, (unsigned long long)enc(p)); }
 		{ P p; p = (unsigned int)W;       std::printf("posit %u %u fromi u32 %llx => %llx\n", nbits, es, W, (unsigned long long)enc(p)); }
 		{ P p; p = (unsigned long long)W; std::printf("posit %u %u fromi u64 %llx => %llx\n", nbits, es, W, (unsigned long long)enc(p)); }
